@@ -40,6 +40,8 @@ def plan(tier, seed):
         cases.append({"mode": "walk", "seed": seed, "idx": i, "cfg": {"n": 1 + i % 3, "async": i % 4 == 3, "foreign": i % 5 == 0, "hc": i % 3 == 1, "ext": i % 2 == 1, "sp": (i // 2) % 4 if i % 6 == 5 else 0, "veto": (seed * 100000 + i + 1) if i % 5 == 2 else 0, "restart2": i % 4 == 1, "orders_first": (i // 3) % 3, "lose_reply": i % 8 == 6}, "len": 10 + i % 5})
     for i in range(3):
         cases.append({"mode": "subscription", "idx": i})
+    for i in range(120 if tier == "quick" else 2500):
+        cases.append({"mode": "late_strategy", "seed": seed, "idx": i})
     # directed cases for the listed finding C11-placement-answer-never-arrives (synchronous and asynchronous placement)
     for asy in (False, True):
         cases.insert(0, {"mode": "events", "cfg": {"n": 1, "async": asy, "lose_reply": "all"}, "events": [["place", 0], ["resp", 0], ["resp", 0], ["resp", 0], ["resp", 0], ["snap"]]})
@@ -537,8 +539,75 @@ def run_subscription(case, out):
         fconfig.customer_strategy_ref = saved
 
 
+def run_late_strategy(case, out):
+    """After a restart the application registers one of its strategies later than the others (a worker adds it once its data is ready):
+    its bets at the exchange are adopted from the next snapshot on, exactly once, and count towards its exposure and live trades."""
+    rng = simgen.mk_rng(case["seed"], case["idx"], 1111)
+    ex = live.Exchange()
+    names = ["A", "B", "C"][: rng.choice((2, 3))]
+    mid = None
+    placed = {}
+    # before the crash: every strategy has bets
+    tr0, w0 = livecases.new_world([livecases.make_strategy(n) for n in names], exchange=ex)
+    try:
+        mid = w0.add_market_file(livecases.static_market())
+        w0.next_book(mid)
+        m0 = w0.market(mid)
+        for st in w0.strategies:
+            for j in range(rng.randint(1, 3)):
+                o = livecases.make_order(st, mid, sel=rng.choice((701, 702, 703)), side=rng.choice(("BACK", "LAY")), price=rng.choice((2.0, 3.0)), size=rng.choice((2.0, 5.0)))
+                m0.place_order(o)
+                placed.setdefault(st.name, []).append(o.customer_order_ref)
+        w0.executor.run_all()
+        w0.snapshot()
+    finally:
+        livecases.finish(w0)
+    k = rng.randint(1, len(names) - 1)  # strategies registered at start-up; the others come later
+    sts = {n: livecases.make_strategy(n) for n in names}
+    tr, w = livecases.new_world([sts[n] for n in names[:k]], exchange=ex)
+    try:
+        w.add_market_file(livecases.static_market())
+        if rng.random() < 0.5:
+            w.next_book(mid)
+        for _ in range(rng.randint(1, 2)):
+            w.snapshot()
+        for n in names[k:]:
+            w.add_strategy(sts[n])
+            for _ in range(rng.randint(1, 2)):
+                w.snapshot()
+        w.next_book(mid)
+        m = w.market(mid)
+        for n in names:
+            st = sts[n]
+            mine = [b for b in ex.bets.values() if b["customerOrderRef"] in placed[n]]
+            for b in mine:
+                out.rule("exchange-bet")
+                got = [o for o in (m.blotter if m is not None else ()) if str(o.bet_id) == b["betId"]]
+                if len(got) != 1 or got[0].trade.strategy is not st:
+                    out.v("exchange-bet-not-tracked-exactly-once", {"restarted": True, "late_strategy": n in names[k:], "count": min(len(got), 2), "async": False, "replaced": False, "shared_ref": False}, bet=b["betId"], strategy=n)
+            by_sel = {}
+            for b in mine:
+                by_sel.setdefault((b["selectionId"], b["handicap"]), []).append(bet_view(b))
+            for sel, views in by_sel.items():
+                out.rule("restart-exposure")
+                w_, l_ = O.selection_wpp(views)
+                got = m.blotter.get_exposures(st, (mid, sel[0], sel[1])) if m is not None else {"worst_possible_profit_on_win": 0.0, "worst_possible_profit_on_lose": 0.0}
+                if abs(got["worst_possible_profit_on_win"] - w_) > 0.011 or abs(got["worst_possible_profit_on_lose"] - l_) > 0.011:
+                    out.v("exposure-differs-from-exchange-table", {"restarted": True, "late_strategy": n in names[k:], "async": False, "replaced": False, "shared_ref": False}, strategy=n, got=got, expected=(w_, l_))
+                ctx = st.get_runner_context(mid, sel[0], sel[1])
+                live_refs = {b["customerOrderRef"] for b in mine if (b["selectionId"], b["handicap"]) == sel and b["status"] != "EXECUTION_COMPLETE"}
+                if ctx.live_trade_count != len(live_refs):
+                    out.v("live-trade-count-differs-from-exchange-table", {"restarted": True, "late_strategy": n in names[k:], "async": False, "replaced": False, "shared_ref": False, "direction": "over" if ctx.live_trade_count > len(live_refs) else "under"}, strategy=n, ctx=ctx.live_trade_count, expected=len(live_refs))
+        out.d("late:%d:%d" % (len(names), k))
+    finally:
+        livecases.finish(w)
+
+
 def run(case):
     out = O.Out(PROPERTY)
+    if case["mode"] == "late_strategy":
+        run_late_strategy(case, out)
+        return out.result()
     if case["mode"] == "subscription":
         run_subscription(case, out)
         return out.result()
